@@ -1401,9 +1401,9 @@ fn scenario_readonly(ctx: &Ctx, out: &mut WorkerOut, index: usize, dm: &str) {
         checked += 1;
         let kind = name.to_string();
         if ne != 1 {
-            // default (non-strict) ecmascript: one signature for "write silently ignored"; a value that
-            // actually changes is reported below under its own signature in either mode
-            let sig = if nonstrict && ne == 0 { "readonly:ecmascript-nonstrict:write-silently-ignored".to_string() } else { format!("readonly:{}:errors={}", kind, ne) };
+            // default (non-strict) ecmascript: one signature per attempt for "write silently ignored"; a
+            // value that actually changes is reported below under its own signature in either mode
+            let sig = if nonstrict && ne == 0 { format!("readonly:ecmascript-nonstrict:{}:write-silently-ignored", kind) } else { format!("readonly:{}:errors={}", kind, ne) };
             out.violation(
                 ctx,
                 "write-to-system-variable-no-error",
